@@ -125,7 +125,10 @@ def gen_rounds(seed, tier, run):
             if len(sh) == 5 and rng.random() < 0.5 and tier == "quick":
                 continue
             for ax in axes:
-                ity = ["i32", "i64", "i32"][k % 3]
+                # (16- and 8-bit lanes too: the value ranges keep every total inside i16; i8 only on small arrays and sums)
+                ity = ["i32", "i64", "i32", "i16", "i64"][k % 5]
+                if prod(sh) <= 12 and "prod" not in op and k % 2:
+                    ity = "i8"
                 fty = "f64p" if (k + (ax or 0)) % 2 == 0 else "f32p"
                 ev = values(rng, ity, prod(sh), op)
                 fv = values(rng, fty, prod(sh), op)
